@@ -108,3 +108,53 @@ def dt_monotone(t, rtol=1e-9):
         return True
     s = rtol * max(float(np.max(np.abs(d))), 1e-300)
     return bool(np.all(np.diff(d) >= -s) or np.all(np.diff(d) <= s))
+
+
+def correlation_thread_groups(oil_sets, water_sets, pressures, derivatives=False):
+    """One list of zero-argument callables per thread: the oil and water correlations (and, on request,
+    their hand-coded derivative functions) for that thread's own fluid, over `pressures` as scalars
+    and as one array. Used by the checks that compare concurrent calls with the same calls made alone."""
+    import functools
+
+    from bluebonnet.fluids import oil, water
+
+    groups = []
+    P = np.asarray(pressures, dtype=float)
+    for (T, api, gg, gor), (Tw, sal) in zip(oil_sets, water_sets):
+        g = []
+        for p in list(P) + [P]:
+            g += [
+                functools.partial(oil.solution_gor_Standing, T, p, api, gg, gor),
+                functools.partial(oil.b_o_Standing, T, p, api, gg, gor),
+                functools.partial(water.b_water_McCain, Tw, p),
+                functools.partial(water.compressibility_water_McCain, Tw, p, sal),
+                functools.partial(water.density_water_McCain, Tw, p, sal),
+                functools.partial(water.viscosity_water_McCain, Tw, p, sal),
+            ]
+            if derivatives:
+                g += [functools.partial(water.b_water_McCain_dp, Tw, p)]
+        for p in P:
+            g += [
+                functools.partial(oil.viscosity_beggs_robinson, T, float(p), api, gg, gor),
+                functools.partial(oil.density_Standing, T, float(p), api, gg, gor),
+                functools.partial(oil.oil_compressibility_Standing, T, float(p), api, gg, gor, -80.0, 660.0),
+                functools.partial(oil.pressure_bubblepoint_Standing, T, api, gg, gor),
+            ]
+            if derivatives and hasattr(oil, "dgor_dpressure_Standing"):
+                g += [functools.partial(oil.dgor_dpressure_Standing, T, float(p), api, gg, gor)]
+        groups.append(g)
+    return groups
+
+
+def judge_thread_groups(ck, desc, groups):
+    from vf import instrument
+
+    bad, errs, n_calls = instrument.concurrent_vs_alone(groups)
+    ck.count("concurrent_evaluations", n_calls)
+    ck.count("thread_groups")
+    for k, i, a, b in bad[:3]:
+        f = groups[k][i]
+        ck.violation("threads-same-value-as-the-call-made-alone", {"function": getattr(f.func, "__name__", str(f.func)), "thread": k, "concurrent": a, "alone": b, "n_differing": len(bad)}, desc)
+    if any(e[0] < 0 for e in errs):
+        ck.violation("threads-every-call-returns", {"errors": [e[2] for e in errs[:3]]}, desc)
+    return n_calls
